@@ -656,9 +656,9 @@ def check_C11(rep):
             cj.append((ops, {"gen": "config-long"}))
         else:
             st = [x for x in gen_in_structured(m) if "ctl" not in x[1]["between"] or speed is None]
-            cj += st[::3] if quick else st
+            cj += st[(n % 5)::5] if quick else st
             cj += [x for x in gen_in_timing(m) if x[1]["where"] in ("ack", "retry_in2") and
-                   x[1]["shape"] in ("full", "short") and (not quick or x[1]["delay"] % 2 == n % 2)]
+                   x[1]["shape"] in ("full", "short") and (not quick or x[1]["delay"] % 3 == n % 3)]
             for i in range(2 if quick else 10):
                 cj.append((gen_in_random(rep.rng, m, 4), {"gen": "random"}))
             if speed is not None:
@@ -1088,7 +1088,7 @@ def check_C13(rep):
         else:
             dd = d if d is not None else 2 * m - 1
             cj += gen_out_space_sweep(m, dd) + gen_out_ping_sweep(m, dd)
-            cj += gen_out_overflow_resume(m, dd, lens=(m,), frees=(0,))[::2 if quick else 1] if m >= 2 else []
+            cj += gen_out_overflow_resume(m, dd, lens=(m,), frees=(0,))[::3 if quick else 1] if m >= 2 else []
             for i in range(2 if quick else 10):
                 cj.append((gen_out_clean(rep.rng, m, dd, 12), {"gen": "random-clean", "class": "clean"}))
         for ops, meta in cj:
@@ -1369,9 +1369,9 @@ def check_C14(rep):
     for m, d, n in ([(4, 7, 15), (5, None, 8), (1, None, 15)] if quick else
                     [(4, 7, 15), (5, None, 8), (1, None, 15), (7, 16, 15), (64, None, 9), (2, 3, 15)]):
         cj = gen_c14_structured(m, d if d is not None else 2 * m - 1, rep.seed)
-        cj = cj[(n % 5)::5] if quick else cj
+        cj = cj[(n % 8)::8] if quick else cj
         cj += [x for i, x in enumerate(gen_c14_ping(m, d if d is not None else 2 * m - 1, rep.seed))
-               if not quick or i % 4 == n % 4]
+               if not quick or i % 6 == n % 6]
         for ops, meta in cj:
             jobs.append(renumbered({"eps": c14_eps(m, d), "script": ops, "seed": rep.seed,
                                     "meta": dict(meta, max=m, cfg="config-coverage")}, n))
@@ -1590,6 +1590,17 @@ def check_C12(rep):
             jobs.append((gen_c12(rep.rng, focus, 5 if quick else 8), focus, {"gen": "random-pair"},
                          rep.rng.randrange(1 << 30)))
     items = run_pairs(rep, C12_EPS, jobs)
+    # configuration coverage: the stream endpoints under test carry number 9 (numbers 1 and 9 change places, so the
+    # aliasing foreign number becomes 1) resp. 15
+    from ..hosts import usb2ep_dev as ud
+    for n in ((9,) if quick else (9, 15)):
+        perm = {1: n, n: 1}
+        rjobs = []
+        for focus in ("in1", "out1"):
+            for i in range(3 if quick else 30):
+                rjobs.append((ud.renumber(gen_c12(rep.rng, focus, 5), perm), "%s%d" % (focus[:-1], n),
+                              {"gen": "random-pair", "ep_number": n}, rep.rng.randrange(1 << 30)))
+        items += run_pairs(rep, ud.renumber_eps(C12_EPS, perm), rjobs)
     for depth1 in ((8, 7) if quick else (8, 7, 5, 12)):
         bjobs = [(ops, "out1", meta, rep.seed) for ops, meta in gen_c12_buffer(depth1)]
         items += run_pairs(rep, c12_eps(depth1), bjobs)
